@@ -94,7 +94,9 @@ EXTRA_ATOMS = [
 ]
 # records on both sides of every size threshold the code might have (1 MiB and beyond): only used where asked for by name
 EXTRA_ATOMS += [A("huge1m", "char {p}hm[1048560];", [("{p}hm", "arr")]), A("huge1m1", "char {p}hn[1048577];", [("{p}hn", "arr")]),
-                A("huge16m", "int {p}ho[4194305];", [("{p}ho", "arr")])]
+                A("huge16m", "int {p}ho[4194305];", [("{p}ho", "arr")]),
+                # member offsets beyond 2^31 and 2^32 BITS (256 MiB and 512 MiB of bytes in front of a member)
+                A("huge256m", "char {p}hp[268435457];", [("{p}hp", "arr")]), A("huge512m", "char {p}hq[536870913];", [("{p}hq", "arr")])]
 STD_NAME_ATOMS = []
 OVERALIGNED_ARRAY_ATOMS = ["oal1d", "oal2d", "oalrow", "i128x2d", "ldx2d"]
 FNPTR_ABI_ATOMS = ["fpvec", "fpmsv", "fppm", "fpms"]
